@@ -64,7 +64,7 @@ def attribute(f, fail, prop, lines):
     if kind == 'post' and fail.get('clause_line'):
         # labels inside the failed clause (a clause may span several lines and carry several labels)
         lo, hi = fail['clause_line'], fail.get('clause_end') or fail['clause_line']
-        labs = [f.clause_labels[n] for n in sorted(f.clause_labels) if lo <= n <= hi]
+        labs = [pl for n in sorted(f.clause_labels) if lo <= n <= hi for pl in f.clause_labels[n]]
         if labs:
             mine = [l for (p, l) in labs if p == prop]
             return '+'.join(mine) if mine and fn_has_prop(f, prop) else None
@@ -236,7 +236,7 @@ def main(argv):
                 bds = vx.fn_breakdown(f, cl['breakdown'])
                 t_us = sum(b.get('time-micros', 0) for b in bds)
                 solver_ms += t_us / 1000.0
-                n_ob = 1 + sum(1 for (pp, _) in f.clause_labels.values() if pp == prop)
+                n_ob = 1 + sum(1 for pls in f.clause_labels.values() for (pp, _) in pls if pp == prop)
                 failed_here = [(fl, lab) for fl, lab in my_fail if fl['fn'] is f]
                 known_here = [(fl, lab) for fl, lab in failed_here if match_known(known, prop, un, f, fl, lab, lines)]
                 ok = not failed_here
@@ -254,7 +254,7 @@ def main(argv):
                         discharged += max(0, n_ob - len(failed_here))
                 fn_rows.append({'unit': un, 'fn': f.qual, 'mode': f.kind, 'source': f.source, 'sha256': f.sha256,
                                 'rewrites': ['%s %s' % x for x in f.rewrites], 'solver_us': t_us, 'verified': ok,
-                                'clauses': sorted(l for (pp, l) in f.clause_labels.values() if pp == prop)})
+                                'clauses': sorted(l for pls in f.clause_labels.values() for (pp, l) in pls if pp == prop)})
             for fl, lab in my_fail:
                 f = fl['fn']
                 if f.qual in unstable:
